@@ -3,8 +3,9 @@ import os, sys, json, time, hashlib, re
 from .models import Cfg
 from .front import VERIF
 
-OUT = os.path.join(VERIF, 'out')
-EVID = os.path.join(VERIF, 'evidence')
+# a development pipeline on another checkout (VERIF_BUILD set, see front.crate_dir) keeps its witnesses and evidence under its own build directory
+OUT = os.path.join(os.environ['VERIF_BUILD'], 'out') if os.environ.get('VERIF_BUILD') else os.path.join(VERIF, 'out')
+EVID = os.path.join(os.environ['VERIF_BUILD'], 'evidence') if os.environ.get('VERIF_BUILD') else os.path.join(VERIF, 'evidence')
 KNOWN = os.path.join(VERIF, 'known_findings.json')
 TIMEOUT_MS = {'quick': 20000, 'thorough': 120000}
 # vacuity guard: path classes that a run of each property must reach (a harness that no longer reaches the code under
